@@ -348,31 +348,31 @@ func writeEvidence(p sim.Property, id, tier string, seed uint64, shards int, s *
 		runsPerHour = float64(s.Runs) / wall * 3600
 	}
 	cov := map[string]any{
-		"evaluations":         s.Runs,
-		"distinct_nontrivial": len(s.Nontrivial),
-		"rule":                p.Rule(),
-		"samples":             samples,
-		"cases":               s.Cases,
-		"simulated_runs":      s.Runs,
-		"runs_per_hour":       int(runsPerHour),
-		"rapid_seeds":         seeds,
-		"sim_io_steps":        s.SimSteps,
-		"simulated_time_note": "the system under test has no timers, sleeps or deadlines; the only meaningful simulated time is the count of I/O steps and map-order events (reported here); the simulated clock is advanced one second per read and was read " + strconv.Itoa(s.Probes["clock"]) + " times",
-		"map_order_events":    s.MapEvents,
-		"faults_configured":   s.FaultsConf,
-		"faults_fired":        s.FaultsFired,
-		"fault_ops":           s.FaultOps,
-		"map_sites_permuted":  s.MapSites,
-		"distinct_schedules":  len(s.Schedules),
-		"world_feature_vectors": len(s.FeatVectors),
-		"exit_codes":          s.ExitCodes,
-		"probes":              s.Probes,
-		"counters":            s.Counters,
-		"known_findings_hit":  s.KnownHit,
-		"determinism_selftest": map[string]int{"runs": s.SelfTestRuns, "mismatches": s.SelfTestMism},
-		"fidelity":            map[string]int{"worlds": s.FidelityWorlds, "mismatches": s.FidelityMism},
+		"evaluations":                   s.Runs,
+		"distinct_nontrivial":           len(s.Nontrivial),
+		"rule":                          p.Rule(),
+		"samples":                       samples,
+		"cases":                         s.Cases,
+		"simulated_runs":                s.Runs,
+		"runs_per_hour":                 int(runsPerHour),
+		"rapid_seeds":                   seeds,
+		"sim_io_steps":                  s.SimSteps,
+		"simulated_time_note":           "the system under test has no timers, sleeps or deadlines; the only meaningful simulated time is the count of I/O steps and map-order events (reported here); the simulated clock is advanced one second per read and was read " + strconv.Itoa(s.Probes["clock"]) + " times",
+		"map_order_events":              s.MapEvents,
+		"faults_configured":             s.FaultsConf,
+		"faults_fired":                  s.FaultsFired,
+		"fault_ops":                     s.FaultOps,
+		"map_sites_permuted":            s.MapSites,
+		"distinct_schedules":            len(s.Schedules),
+		"world_feature_vectors":         len(s.FeatVectors),
+		"exit_codes":                    s.ExitCodes,
+		"probes":                        s.Probes,
+		"counters":                      s.Counters,
+		"known_findings_hit":            s.KnownHit,
+		"determinism_selftest":          map[string]int{"runs": s.SelfTestRuns, "mismatches": s.SelfTestMism},
+		"fidelity":                      map[string]int{"worlds": s.FidelityWorlds, "mismatches": s.FidelityMism},
 		"traces_validated_against_impl": s.FidelityWorlds - s.FidelityMism,
-		"instrumenter":        rep,
+		"instrumenter":                  rep,
 		"components": map[string]any{
 			"real": []string{"main.go (flag parsing, write loop, exit path)", "pkg/generator", "pkg/schemas", "pkg/codegen", "pkg/yamlutils", "internal/x/text",
 				"cobra", "pflag", "encoding/json", "goccy/go-yaml", "mergo", "litter", "go-cmp", "go/format", "net/http client"},
